@@ -20,7 +20,13 @@ ASSUMPTIONS = ["z3 (+cvc5 where it can parse opensmt's numerals)", "hooked build
 
 
 def generate(rnd, tier):
-    script, _, _ = gen.gen_script(rnd, tier, planted_p=0.5, queries=False, tracking=set(), dense_p=0.6)
+    if rnd.random() < 0.5:
+        # hard clause sets over theory atoms with several bounds per term: many assert/backtrack interleavings per run
+        script, _, _ = gen.gen_script(rnd, tier, planted_p=0.0, queries=False, tracking=set(), dense_p=1.0, hard=True, hist_p=0.3,
+                                      big=False, logic_keys=["QF_LRA", "QF_RDL", "QF_IDL", "QF_UF", "QF_UFLRA", "QF_AX", "QF_ALRA",
+                                                             "QF_LIA", "QF_UFRDL"])
+    else:
+        script, _, _ = gen.gen_script(rnd, tier, planted_p=0.5, queries=False, tracking=set(), dense_p=0.6)
     for k, vals in ((":restart-first", ["1", "2", "100"]), (":random-var-freq", ["0", "0.02", "0.5"]),
                     (":rnd-pol", ["true", "false"])):
         if rnd.random() < 0.4 and not any(o[0] == k for o in script["options"]):
